@@ -610,6 +610,8 @@ type c09Off struct {
 	srcIA  uint64
 	srcTL  uint8
 	srcRaw []byte
+	// for the recorded (not judged) expectation about the reply's path state
+	expCurrHF int
 }
 
 // ---- the run ----
@@ -620,8 +622,8 @@ type c09Run struct {
 	prov      *drkeyutil.FakeProvider
 	replies   sync.Map // cause -> *atomic.Int64
 	notMax    atomic.Int64
-	segIDObs  atomic.Int64
-	currObs   atomic.Int64
+	segIDObs  sync.Map // cause class/ingress kind -> count of replies whose SegIDs differ from the offender's as received
+	currObs   sync.Map // same for the current hop field
 	pathObsOK atomic.Int64
 	maxSeen   atomic.Int64
 	sizes     sync.Map // total reply length -> true (only around the bound)
@@ -881,6 +883,26 @@ func (k *c09Run) checkPath(o *c09Off, p *c09Parsed) {
 		}
 	}
 	k.pathObsOK.Add(1)
+	// Recorded only (C10 decides whether replies travel back): a reply that is to be accepted by the next router must
+	// carry, in every info field, the SegID the offender had when it was received, and point at the hop field after
+	// (external ingress) / of (internal ingress) this AS.
+	cls := o.cause
+	if i := strings.IndexByte(cls, ':'); i > 0 {
+		cls = cls[:i]
+	}
+	tag := fmt.Sprintf("%s/ingress-kind-%d", cls, o.in.Kind)
+	for i := 0; i < ns; i++ {
+		if !bytes.Equal(o.raw[o.lay.InfoOff[ns-1-i]+2:o.lay.InfoOff[ns-1-i]+4], p.infos[i][2:4]) {
+			k.count(&k.segIDObs, tag)
+			if os.Getenv("C09_DEBUG") == "segid" && o.auth == false && len(o.raw) < 150 {
+				fmt.Printf("SEGID %s\n offender=%x\n reply-infos=%x\n", o.key, o.raw, p.infos)
+			}
+			break
+		}
+	}
+	if int(p.currHF) != o.expCurrHF {
+		k.count(&k.currObs, tag)
+	}
 }
 
 func (k *c09Run) checkAuth(o *c09Off, p *c09Parsed, out []byte) {
@@ -1007,6 +1029,7 @@ type c09Job struct {
 	multi, auth, bfd bool
 	params           int
 	mode             string // "causes", "types", "sizes"
+	key              []byte
 }
 
 func (k *c09Run) build(e *c09Env, c *rtr.Case, cause *c09Cause, epic bool, ext int, l4 c09L4, srcV6 bool, auth bool, tc uint8,
@@ -1042,8 +1065,23 @@ func (k *c09Run) build(e *c09Env, c *rtr.Case, cause *c09Cause, epic bool, ext i
 	o.srcTL = raw[9] & 15
 	dl := c09AddrLen(raw[9] >> 4)
 	o.srcRaw = raw[28+dl : 28+dl+c09AddrLen(o.srcTL)]
-	o.key = fmt.Sprintf("%s|%s|epic=%v ext=%d l4=%s v6=%v auth=%v multi=%v tc=%x %s", c.Name, cause.name, epic, ext, l4.name, srcV6, auth,
-		e.multi, tc, tag)
+	// expected current hop of the reply (observation only)
+	nh, h := p.NumHops(), c.V[0].Hop
+	first, acc := false, 0
+	for si, sg := range p.Segs {
+		if h == acc && si > 0 && !sg.Peer {
+			first = true
+		}
+		acc += len(sg.Hops)
+	}
+	switch {
+	case in.Kind == 1, in.Kind == 2 && first:
+		o.expCurrHF = nh - h
+	default:
+		o.expCurrHF = nh - 1 - h
+	}
+	o.key = fmt.Sprintf("%s|%s|epic=%v ext=%d l4=%s v6=%v auth=%v multi=%v key=%x tc=%x %s", c.Name, cause.name, epic, ext, l4.name, srcV6, auth,
+		e.multi, e.key[0], tc, tag)
 	return o, true
 }
 
@@ -1074,6 +1112,9 @@ func TestC09(t *testing.T) {
 					jobs = append(jobs, c09Job{multi: multi, auth: auth, params: pi, mode: "causes"})
 				}
 				jobs = append(jobs, c09Job{multi: multi, auth: auth, bfd: true, mode: "causes"})
+				if mc.Thorough() { // a second forwarding key
+					jobs = append(jobs, c09Job{multi: multi, auth: auth, mode: "causes", key: rtr.KeyB})
+				}
 				for _, bfd := range []bool{false, true} {
 					jobs = append(jobs, c09Job{multi: multi, auth: auth, bfd: bfd, mode: "types"})
 					for pi := 0; pi < 2; pi++ {
@@ -1089,7 +1130,10 @@ func TestC09(t *testing.T) {
 		samples := 0
 		mc.ParallelFor(len(jobs), func(ji int) {
 			j := jobs[ji]
-			cfg := rtr.StdCfg(j.multi, rtr.KeyA)
+			if j.key == nil {
+				j.key = rtr.KeyA
+			}
+			cfg := rtr.StdCfg(j.multi, j.key)
 			cfg.AuthSCMP = j.auth
 			if j.bfd {
 				for i := range cfg.Ifs {
@@ -1097,8 +1141,8 @@ func TestC09(t *testing.T) {
 				}
 			}
 			rt := rtr.MustBuild(cfg)
-			e := &c09Env{cfg: &cfg, key: rtr.KeyA, multi: j.multi}
-			cases := rtr.CasesP(&cfg, rtr.KeyA, prm[j.params])
+			e := &c09Env{cfg: &cfg, key: j.key, multi: j.multi}
+			cases := rtr.CasesP(&cfg, j.key, prm[j.params])
 			var cs []*c09Cause
 			for i := range causes {
 				if causes[i].bfd == j.bfd && (j.bfd || causes[i].params == j.params) {
@@ -1146,7 +1190,7 @@ func TestC09(t *testing.T) {
 				}
 			case "types":
 				// one representative case per (cause, ingress kind, xover)
-				seen := map[string]bool{}
+				seen := map[string]int{}
 				for ci := range cases {
 					c := &cases[ci]
 					for _, cause := range cs {
@@ -1155,10 +1199,10 @@ func TestC09(t *testing.T) {
 							continue
 						}
 						id := fmt.Sprintf("%s/%d/%v", cause.name, probe.in.Kind, c.Xover)
-						if seen[id] {
+						if seen[id] >= mc.Pick(1, 4) {
 							continue
 						}
-						seen[id] = true
+						seen[id]++
 						for typ := 0; typ < 256; typ++ {
 							for _, bl := range []int{24, 4, 0} {
 								for ext := 0; ext < 4; ext++ {
@@ -1315,6 +1359,13 @@ func TestC09(t *testing.T) {
 		r.Extra["quotes_shorter_than_possible"] = k.notMax.Load()
 		r.Extra["lenient_pointers_observed"] = ptrs
 		r.Extra["reply_paths_checked_reversed"] = k.pathObsOK.Load()
+		dump := func(m *sync.Map) map[string]int64 {
+			out := map[string]int64{}
+			m.Range(func(key, v any) bool { out[key.(string)] = v.(*atomic.Int64).Load(); return true })
+			return out
+		}
+		r.Extra["observation_for_C10_reply_segid_differs_from_offender_as_received"] = dump(&k.segIDObs)
+		r.Extra["observation_for_C10_reply_current_hop_unexpected"] = dump(&k.currObs)
 		if len(sizes) == 0 || sizes[len(sizes)-1] != c09MaxLen {
 			if r.Violations() == 0 {
 				r.HarnessError("size sweep never produced a reply of exactly 1232 bytes (lengths >= 1228 seen: %v)", sizes)
